@@ -22,6 +22,10 @@ func (Engine) Gen(prop, tier string, r *detsim.Rand) interface{} {
 		p = GenC11(r, tier)
 	}
 	p.Cfg.Clock = simsync.ClockMode(r.Intn(4)) // the last draw: everything else of the plan is what it was before the clock existed
+	p.ExecPanics = r.Chance(1, 3)
+	if p.Cfg.StepCap == 0 {
+		p.Cfg.StepCap = 3000000 // a validation of a 3000-level list alone takes tens of thousands of steps
+	}
 	return p
 }
 
